@@ -12,8 +12,9 @@
    view (other rows, words between the rows, padding bits beyond ncols) is unchanged.
 
    Domain hypotheses ([c_dom]): the integer members fit their C types (rci_t = int, wi_t = int64_t) and
-   the array has fewer than 2^62 words, so that no `int`/`long` computation of the C text overflows:
-   row * rowstride and all word offsets stay below the array length (mzd.h:186 multiplies in wi_t).
+   the array has fewer than 2^48 words (2 PiB), so that no `int`/`long` computation of the C text overflows
+   — row * rowstride and all word offsets stay below the array length (mzd.h:186 multiplies in wi_t) — and
+   the interpreter's loop fuel (2^48 iterations, CMini.LFUEL) is never exhausted by a loop over a row.
 
    This file: the harness, N <-> Z word arithmetic, the evaluation tactic, mzd_row (mzd.h:185),
    mzd_row_const (:189), mzd_read_bit (:440), mzd_write_bit (:457), mzd_read_bits (:893).
@@ -65,7 +66,7 @@ Qed.
 (** the domain on which the C integer types hold the members and every offset *)
 Definition c_dom (h : hdr) (fl : Z) (mem : list N) : Prop :=
   Z.of_nat (h_nrows h) <= 2147483647 /\ Z.of_nat (h_ncols h) <= 2147483647 /\
-  Z.of_nat (h_rowstride h) < 2 ^ 62 /\ 0 <= fl <= 255 /\ Z.of_nat (List.length mem) < 2 ^ 62.
+  Z.of_nat (h_rowstride h) < 2 ^ 62 /\ 0 <= fl <= 255 /\ Z.of_nat (List.length mem) < 2 ^ 48.
 
 (** * 64-bit words in Z and in N *)
 Definition w64 (z : Z) : Prop := 0 <= z < M64.
@@ -204,28 +205,43 @@ Ltac w64_solve :=
                | apply w64_shiftr; [|lia]
                | apply word_at_w64; assumption
                | apply w64_nth_words; assumption
-               | apply w64_of_N; first [assumption | apply shl_lt | apply wnot_lt | apply trunc_lt | lia]
+               | apply w64_of_N; first [assumption | apply shl_lt | apply wnot_lt | apply trunc_lt | apply shr_lt; assumption | lia]
                | apply w64_const; reflexivity ].
 
 Ltac cm_eval' := cm_eval; cbn [wbits].
+Ltac cm_len := rewrite ?upd_length_Z, ?words_length; lia.
 Ltac cm_step :=
-  first [ rewrite Z.add_0_l
-        | progress change (wmod W64) with M64
-        | rewrite quot_nonneg by lia
-        | rewrite rem_nonneg by lia
-        | rewrite convert_tulong_id by (unfold M64; lia)
-        | rewrite convert_tlong by lia
-        | rewrite convert_tint by lia
-        | rewrite load_mem_of by (rewrite ?upd_length_Z, ?words_length; lia)
-        | rewrite store_mem_of by (rewrite ?upd_length_Z, ?words_length; lia)
-        | cm_if cm_side ].
-Ltac cm_run := cm_eval'; repeat (cm_step; cm_eval').
+  match goal with
+  | |- context [0 + ?z] => rewrite (Z.add_0_l z)
+  | |- context [wmod W64] => progress change (wmod W64) with M64
+  | |- context [Z.quot ?a ?b] => rewrite (quot_nonneg a b) by lia
+  | |- context [Z.rem ?a ?b] => rewrite (rem_nonneg a b) by lia
+  | |- context [convert tulong ?z] =>
+      first [rewrite (convert_tulong_id z) by (unfold M64; lia) | rewrite (convert_tulong z)]
+  | |- context [convert tlong ?z] => rewrite (convert_tlong z) by lia
+  | |- context [convert tint ?z] => rewrite (convert_tint z) by lia
+  | |- context [nth ?j (upd ?i ?x ?l) ?d] => rewrite (nth_upd_neq i j x d l) by lia
+  | |- context [load (mem_of ?ws) _ ?i] => rewrite (load_mem_of ws i) by cm_len
+  | |- context [store (mem_of ?ws) _ ?i (Vint ?v)] => rewrite (store_mem_of ws i v) by cm_len
+  | |- _ => cm_if cm_side
+  end.
+(** never steps into a loop: loops are entered by [exec_Sloop_reach] with an invariant *)
+Ltac cm_noloop :=
+  lazymatch goal with
+  | |- context [exec zops _ _ (Sloop _ _ _) _ _] => fail
+  | |- _ => idtac
+  end.
+Ltac cm_run :=
+  repeat first [ cm_noloop; cm_split | cm_noloop; progress cm_eval' | cm_step | progress cm_release; cm_noloop ].
 
 (** the closing steps: both sides are the same word expression, one over Z (the C semantics: every unsigned
     operation is followed by mod 2^64), one over N (the model: truncation only where a bit can leave the word) *)
+Ltac nlt_solve :=
+  repeat first [ assumption | apply shl_lt | apply wnot_lt | apply trunc_lt | apply shr_lt
+               | apply mem_ok_word; assumption | reflexivity ].
 Ltac n2z := repeat first [ rewrite of_N_trunc | rewrite of_N_lor | rewrite of_N_land | rewrite of_N_lxor
                          | rewrite of_N_shl | rewrite of_N_shr
-                         | rewrite of_N_wnot by first [apply shl_lt | apply wnot_lt | apply trunc_lt | assumption] ].
+                         | rewrite of_N_wnot by nlt_solve ].
 Ltac wnorm := repeat first [ rewrite land_mod by w64_solve | rewrite lor_mod by w64_solve
                            | rewrite lxor_mod by w64_solve | rewrite shiftr_mod by first [lia | w64_solve] ].
 Ltac weq :=
@@ -252,7 +268,8 @@ Ltac wfin := cbn [option_map]; rewrite ?words_upd; res_eq; n2z; wnorm; weq.
 
 (** enter a function of [access_prog] *)
 Ltac cm_enter f fdef :=
-  rewrite run_S; change (find_func access_prog f) with (Some fdef); cbv beta iota; unfold fdef.
+  rewrite run_S; change (find_func access_prog f) with (Some fdef); cbv beta iota; unfold fdef;
+  cbn [fn_params fn_body bind_params bind tset].
 
 (** * mzd_row (mzd.h:185) and mzd_row_const (mzd.h:189): offset of row [row] = data offset + rowstride * row.
     The product is computed in wi_t = int64_t. *)
